@@ -179,7 +179,10 @@ impl Object for Function {
                     ref p => bail!("found a function stream with type {:?}", p)
                 }
             },
-            Primitive::Reference(r) => Self::from_primitive(resolve.resolve(r)?, resolve),
+            Primitive::Reference(r) => match resolve.resolve(r)? {
+                Primitive::Reference(_) => bail!("Function: reference to a reference"),
+                p => Self::from_primitive(p, resolve),
+            },
             _ => bail!("double indirection")
         }
     }
